@@ -118,6 +118,10 @@ func paramSets() map[string]pset {
 		"q2p1b20": mk([]int{50, 40}, []int{55}, 20),
 		"q2p2":    mk([]int{50, 40}, []int{45, 45}, 0),
 		"q3p2":    mk([]int{45, 40, 40}, []int{50, 50}, 0),
+		"q28p1":   mk([]int{28}, []int{30}, 7),
+		"q28p1b0": mk([]int{28}, []int{30}, 0),
+		"q28p2":   mk([]int{28}, []int{30, 30}, 0),
+		"q2lowp1": mk([]int{28, 40}, []int{45}, 7),
 	}
 }
 
